@@ -145,7 +145,7 @@ def discharge(law: Law, shape, pid: str, replay_ref: str) -> Ob:
         tb = traceback.extract_tb(e.__traceback__)
         inner = tb[-1].filename if tb else ""
         from .core import PKG as _PKG
-        if inner.startswith(str(_PKG)) and not isinstance(e, AssertionError):
+        if inner.startswith(str(_PKG)) and not isinstance(e, (AssertionError, NotImplementedError)):  # NotImplementedError: an explicit "unsupported", not a wrong answer
             # the REAL code raised on generic inputs of a shape inside the clause's domain: the clause (which states a value) fails
             ob = Ob(name, REFUTED, "exec-generic", (time.time() - t0) * 1000,
                     f"the real code raised {type(e).__name__}: {e} (at {Path(inner).name}:{tb[-1].lineno}) on generic inputs of this shape, "
